@@ -24,6 +24,16 @@ CLAIMS = {
    technique="CBMC code contracts (IEEE) + WP/SMT lemmas", design='5 C18'),
 }
 
+ 'C20': dict(
+   text="CKM unitarity is proved as 9 complex polynomial identities for ALL angles and phases from sin^2+cos^2=1 (contract of the real "
+        "get_ckm_from_angles); get_ckm_from_wolfenstein throws only EInvalidInput, rejects every out-of-range parameter, and every asin/sqrt it "
+        "evaluates on accepted input is in its domain (this obligation exposed a NaN-matrix defect, repaired by a fix: commit); cw/sw/e/gY/g2/v/g3 "
+        "relations for all 0<MW<MZ; running masses: boundary value, positivity, strict monotonicity and the composition law under the power "
+        "laws of pow; Lambda_QCD fallback-with-warning as an exception-effect contract; running-mass bypass in THDM::get_mu/md/ml.",
+   note=NOTE_COMMON + "Undecided remainder: IEEE rounding (the 1e-14 of the statement), the boost root finder (assumed: returns a bracket or throws), the theta_13=0 fallback for non-finite V13 (an IEEE mechanism), calculate_alpha_s_SM5_at only by an assumed contract (value in (0,1)).",
+   technique="WP/symbolic execution of the extracted real functions + z3 NRA; exception/diagnostic effects as ghost state", design='5 C20'),
+}
+
 NOT_APPLICABLE = {
  'C12': "matrix decompositions are thin templates over Eigen's iterative JacobiSVD/SelfAdjointEigenSolver and expression templates: no contract within reach of CBMC or of the extractor can express or decide them; their documented contracts are used only as assumption A-LINALG (DESIGN.md section 6)",
 }
